@@ -698,7 +698,7 @@ class Fxp():
 
             try:
                 if isinstance(val, np.float128):
-                    val = np.array(float(val))
+                    val = np.array(val)     # kept in extended precision, like an array of them: float() would round before the quantization
             except:
                 # by now it is just an extra test, not critical
                 pass
